@@ -243,6 +243,9 @@ def c06_options(gps):
                 opts.append(dict(base, weak=True, shift=1))  # both flags on one connection: the shift resolves every cycle
             if a != b:
                 opts.append({"src": C06_SIDS[a], "dst": C06_SIDS[b], "async": True})
+            else:
+                # an attribute wired straight back into itself (same entity, same name on both sides)
+                opts.append({"src": C06_SIDS[a], "dst": C06_SIDS[b], "sa": "e", "da": "e"})
     return opts
 
 
@@ -578,6 +581,89 @@ def c12_rows(universe):
     return rows
 
 
+class _C12Sim:
+    """In-process simulator that announces whatever meta the recorder put into META (several models per simulator)."""
+    META = {}
+
+    def init(self, sid, time_resolution=1.0, **kw):
+        import copy as _copy
+
+        return _copy.deepcopy(_C12Sim.META)
+
+    def create(self, num, model, **kw):
+        return [{"eid": f"{model}{i}", "type": model} for i in range(num)]
+
+    def step(self, time, inputs, max_advance):
+        return time + 1
+
+    def get_data(self, outputs):
+        return {}
+
+    def setup_done(self):
+        pass
+
+    def finalize(self):
+        pass
+
+
+def c12_siblings(rows, universe, limit, rng):
+    """The classification a model gets when the simulator is STARTED (World.start -> ModelFactory -> ModelMock) must be the
+    one parse_attrs gives for its description alone - whatever other models the same simulator has.  Every sampled
+    description is started together with a sibling that has the same lists and the opposite any_inputs flag, in both orders."""
+    import contextlib
+    import io
+    import warnings
+
+    import mosaik
+
+    W = list(universe) + ["z"]
+    by = {}
+    for r in rows:
+        key = (r["type"], json.dumps([r[k] if r["has"][k] else None for k in ("attrs", "tr", "nt", "ps", "np")]))
+        by.setdefault(key, {})[r["any"]] = r
+    keys = [k for k in by if len(by[k]) == 2]
+    rng.shuffle(keys)
+    bad = []
+    names = {"attrs": "attrs", "tr": "trigger", "nt": "non-trigger", "ps": "persistent", "np": "non-persistent"}
+    for typ, kj in keys[:limit]:
+        pair = by[(typ, kj)]
+        for first in (False, True):
+            models = {}
+            for any_ in (first, not first):
+                r = pair[any_]
+                d = {"public": True, "params": []}
+                for k, n in names.items():
+                    if r["has"][k]:
+                        d[n] = list(r[k])
+                if any_:
+                    d["any_inputs"] = True
+                models["Many" if any_ else "Mno"] = d
+            _C12Sim.META = {"api_version": "3.0", "type": typ, "models": models}
+            with contextlib.redirect_stdout(io.StringIO()), warnings.catch_warnings():
+                warnings.simplefilter("ignore")
+                world = mosaik.World({"S": {"python": "checks.pure:_C12Sim"}}, skip_greetings=True)
+                try:
+                    try:
+                        fac = world.start("S")
+                        got = {}
+                        for name in models:
+                            mm = getattr(fac, name)
+                            sets = (mm.measurement_inputs, mm.event_inputs, mm.measurement_outputs, mm.event_outputs)
+                            got[name] = {"ok": True, **{n: [x for x in W if x in st] for n, st in zip(("rnt", "rtr", "rps", "rnp"), sets)}}
+                    except Exception as e:  # noqa: BLE001
+                        got = {name: {"ok": False, "exc": type(e).__name__} for name in models}
+                finally:
+                    world.shutdown()
+            # the simulator as a whole is accepted iff both descriptions are; each model's classes are its own
+            want_ok = all(pair[a]["ok"] for a in (False, True))
+            for any_, name in ((False, "Mno"), (True, "Many")):
+                g, w = got[name], pair[any_]
+                if g["ok"] != want_ok or (g["ok"] and any(g[n] != w[n] for n in ("rnt", "rtr", "rps", "rnp"))):
+                    bad.append({"type": typ, "lists": json.loads(kj), "any_inputs": any_, "first_model_has_any_inputs": first,
+                                "started": g, "alone": {n: w[n] for n in ("ok", "rnt", "rtr", "rps", "rnp")}})
+    return bad, min(limit, len(keys)) * 2
+
+
 def c12_algebra(universe):
     from mosaik.in_or_out_set import OutSet
 
@@ -644,14 +730,23 @@ def c12(tier, seed):
             row = (algebra if is_alg else parts[pi][0])[n]
             findings.append(checklib.Finding("C12", clause, case={"id": [clause, pi, n], "kind": "c12", "row": row}, detail=json.dumps(row), extra={"row": row}))
     import collections
+    import random as _random
 
+    # through the public path, with a sibling model in the same simulator (oracle: the TLC-judged rows above)
+    sib_bad, sib_n = c12_siblings(c12_rows(universe) if False else rows[:len(rows) - len(rows2) - len(rows3)], universe,
+                                  1500 if tier == "quick" else 10**9, _random.Random(f"c12sib|{seed}"))
+    for b in sib_bad[:50]:
+        findings.append(checklib.Finding("C12", "C12_classification_depends_on_a_sibling_model_of_the_same_simulator",
+                                         case={"id": ["sibling", b["type"], b["lists"], b["any_inputs"], b["first_model_has_any_inputs"]], "kind": "c12", "row": b},
+                                         detail=json.dumps(b)[:600], extra={"row": b}))
     cov = {
-        "states": states, "transitions": trans, "traces_validated_against_impl": len(rows) + len(algebra),
+        "states": states, "transitions": trans, "traces_validated_against_impl": len(rows) + len(algebra) + sib_n,
+        "sibling_model_starts": sib_n,
         "samples": [rows[1234], next(r for r in rows if r["ok"] and r["type"] == "hybrid" and r["has"]["tr"]), algebra[17]],
         "evaluations": len(rows) + len(algebra), "distinct_nontrivial": len(rows) + len(algebra),
         "rule": f"every model description with each of attrs / trigger / non-trigger / persistent / non-persistent absent or any subset of {list(universe)} "
                 f"x any_inputs x 3 simulator types ({len(rows)} descriptions; real parse_attrs; result sets compared by membership on the universe plus the witness 'z' "
-                f"for 'any other attribute'); the same over the name universes {list(odd)} and ['q.x', 'q-x'] (names are opaque); plus every InOrOutSet expression x op y, op in |,&,-,==,in over the finite/co-finite sets over the same universe ({len(algebra)} rows)",
+                f"for 'any other attribute'); the same over the name universes {list(odd)} and ['q.x', 'q-x'] (names are opaque); plus {sib_n} simulator starts (World.start) of a description together with a sibling model that differs only in any_inputs, both orders; plus every InOrOutSet expression x op y, op in |,&,-,==,in over the finite/co-finite sets over the same universe ({len(algebra)} rows)",
         "exhaustive": True,
         "accepted": sum(1 for r in rows if r["ok"]),
         "record_secs": round(t1 - t0, 1),
@@ -707,7 +802,10 @@ class _RecWorld:
         self.calls.append((src, dest, attrs, kw))
 
 
-def _bulk_run(ns, nd, evenly, maxc, rnd, as_float=False):
+ATTR_FORMS = [("a", ("b", "c")), (), ("a",), (("x", "y"),)]
+
+
+def _bulk_run(ns, nd, evenly, maxc, rnd, as_float=False, attrs=ATTR_FORMS[0]):
     from mosaik import util
 
     w = _RecWorld()
@@ -721,14 +819,14 @@ def _bulk_run(ns, nd, evenly, maxc, rnd, as_float=False):
         if maxc:
             # a finite limit may be given as a float (2.0, 4/2, the result of a ceil) - the default itself is the float inf
             kw["max_connects"] = float(maxc) if as_float else maxc
-        ret = util.connect_randomly(w, src, list(dst), "a", ("b", "c"), **kw)
+        ret = util.connect_randomly(w, src, list(dst), *attrs, **kw)
         row.update({"ok": True, "ret": sorted(int(d[1:]) for d in ret)})
     except BaseException as e:  # noqa: BLE001
         row.update({"ok": False, "ret": [], "exc": f"{type(e).__name__}: {e}"[:100]})
     finally:
         util.random = saved
     row["calls"] = [[int(s[1:]), int(d[1:])] for s, d, a, k in w.calls]
-    row["attrs_ok"] = all(a == ("a", ("b", "c")) and not k for s, d, a, k in w.calls)
+    row["attrs_ok"] = all(a == tuple(attrs) and not k for s, d, a, k in w.calls)
     return row
 
 
@@ -770,7 +868,8 @@ def c18(tier, seed):
         if maxc and rng.random() < 0.3:
             ns = nd * maxc  # exactly filled (D5)
         r = pyrandom.Random(rng.random())
-        rows.append(_bulk_run(ns, nd, evenly, maxc, r, as_float=bool(maxc) and rng.random() < 0.3))
+        # (any attribute form, including NO attributes at all - World.connect(src, dest) is a supported call)
+        rows.append(_bulk_run(ns, nd, evenly, maxc, r, as_float=bool(maxc) and rng.random() < 0.3, attrs=rng.choice(ATTR_FORMS)))
     # connect_many_to_one
     from mosaik import util
 
